@@ -72,6 +72,7 @@ class Lang:
         from transforge.lang import Language
         h = self.h
         tops = h.build()
+        self.tops = dict(tops)
         self.inv = {id(op): i for i, op in tops.items()}
         scope = {str(tops[i]): tops[i] for i in h.ids}
 
@@ -101,13 +102,16 @@ class Lang:
             scope[o["name"]] = self.py[o["name"]]
         canon = None
         if self.listed is not None:
-            canon = [h.inst(t) for t in self.listed]
+            canon = [self.inst(t) for t in self.listed]
             if self.top:
                 canon.append(T.Top)
             if self.bot:
                 canon.append(T.Bottom)
-        self.language = Language(scope=scope, namespace=NS, canon=canon)
+        self.language = Language(scope=scope, namespace=NS, canon=canon if canon is not None else ())
         return self.language
+
+    def inst(self, t):
+        return self.tops[t[0]](*(self.inst(a) for a in t[1]))
 
     def from_impl(self, t):
         """transforge type -> (op, args); None when a variable is left in it"""
@@ -192,32 +196,46 @@ def gen_lang(rng: random.Random) -> Lang:
         listed, top, bot = None, False, False
     else:
         listed = []
-        for _ in range(rng.randint(1, 3)):
+        for _ in range(rng.randint(1, 4)):
             q = rng.random()
-            listed.append(ty(0) if q < 0.3 else ty(1) if q < 0.8 else ty(2))
+            listed.append(ty(0) if q < 0.25 else ty(1) if q < 0.8 else ty(2))
         if not any(t[1] for t in listed) and rng.random() < 0.85:
             o = rng.choice(comps)
             listed.append((o, [ty(rng.choice([0, 0, 1])) for _ in range(h.arity(o))]))
         top, bot = rng.random() < 0.6, rng.random() < 0.4
+    # the canonical types this gives (operators take and produce mostly those)
+    try:
+        L0 = Lang(h, listed, top, bot, [])
+        L0.build()
+        canon0 = [t for t in L0.canon_list() if t is not None and not mentions(t, (0, 1, 2, 3, 4))]
+        if len(L0.language.canon) > MAX_CANON:
+            return None
+    except Exception:
+        return None
+    ccomp = [t for t in canon0 if t[1]]
     # transformation operators
     roots = [b for b in bases if b not in parents]
     ops = []
 
     def pty():
         q = rng.random()
-        if q < 0.45:
+        if q < 0.35:
             return (rng.choice(roots), [])
-        if q < 0.75:
+        if q < 0.6 and ccomp:
+            return rng.choice(ccomp)
+        if q < 0.8:
             return ty(0)
         return ty(1)
 
     def oty():
         q = rng.random()
-        if listed and q < 0.35:
-            return rng.choice(listed)
-        if q < 0.55:
+        if ccomp and q < 0.4:
+            return rng.choice(ccomp)
+        if canon0 and q < 0.55:
+            return rng.choice(canon0)
+        if q < 0.65:
             return ty(0)
-        if q < 0.85:
+        if q < 0.9:
             return ty(1)
         return ty(2)
     for k in range(rng.randint(2, 4)):
@@ -291,7 +309,7 @@ def build(L: Lang, r, env):
     import transforge.expr as E
     if r[0] == "src":
         if r[1] not in env:
-            env[r[1]] = E.Source(L.h.inst(r[2])) if r[2] is not None else E.Source()
+            env[r[1]] = E.Source(L.inst(r[2])) if r[2] is not None else E.Source()
         return env[r[1]]
     e = L.py[r[1]].instance()
     for a in r[2]:
@@ -375,7 +393,6 @@ def gen_pool(rng, L: Lang, canon, rounds: int):
     pool = []      # (recipe, type tuple | None)
     for t in source_types(rng, L, canon):
         pool.append((("src", 0, t), t))
-    pool.append((("src", 0, None), None))
     for o in L.ops:
         r = ("op", o["name"], [])
         tt = try_type(L, r)
@@ -386,14 +403,20 @@ def gen_pool(rng, L: Lang, canon, rounds: int):
         n = len(o["params"])
         k = n if rng.random() < 0.85 else rng.randint(1, n)
         args = []
-        for p in o["params"][:k]:
+        untyped_var = set()
+        for pi, p in enumerate(o["params"][:k]):
             if ground(p):
                 want = tup(p)
                 c = [e for e in pool if e[1] is not None and sub(h, e[1], want)]
-                if want[0] != 3 and rng.random() < 0.15:
-                    c.append((("src", 0, None), None))
             else:
-                c = [e for e in pool if e[1] is None or e[1][0] != 3]
+                c = [e for e in pool if e[1] is not None and e[1][0] != 3]
+                # an untyped source where the same variable also gets a typed argument:
+                # its type is then resolved through a bound variable (graph.py:247)
+                twins = [q for qi, q in enumerate(o["params"][:k]) if qi != pi and q == p]
+                if p[0] == "V" and twins and p[1] not in untyped_var and rng.random() < 0.3:
+                    untyped_var.add(p[1])
+                    args.append(("src", 0, None))
+                    continue
             if not c:
                 args = None
                 break
@@ -486,7 +509,8 @@ def expected_concepts(ws):
         k = w["k"]
         if k == "src":
             memo.add(key)
-            out.append({"kind": "src", "id": w["id"], "t": w["t"], "inter": False})
+            out.append({"kind": "src", "id": w["id"], "t": w["t"], "inter": False,
+                        "via_var": w.get("via_var", False)})
         elif k == "op":
             out.append({"kind": "op", "id": w["id"], "name": w["name"], "t": w["t"], "inter": inter})
         elif k == "app":
@@ -519,7 +543,7 @@ class Case:
 
     def payload(self):
         L = self.L
-        d = {"language": L.to_json(), "kind": self.kind, "switches": self.sw, "other_switches": self.other,
+        d = {"language": L.to_json(), "case_kind": self.kind, "switches": self.sw, "other_switches": self.other,
              "name": self.name, "namespace": NS}
         if self.kind == "expr":
             d["recipe"] = self.spec
@@ -549,9 +573,11 @@ def gen_switches(rng):
 def gen_cases(rng, nlang: int, per_lang: int):
     cases = []
     tries = 0
-    while len({id(c.L) for c in cases}) < nlang and tries < nlang * 6:
+    while len({id(c.L) for c in cases}) < nlang and tries < nlang * 10:
         tries += 1
         L = gen_lang(rng)
+        if L is None:
+            continue
         try:
             L.build()
         except Exception:
@@ -675,7 +701,7 @@ def gen_workflow(rng, L: Lang, pool):
                 break
             # the output type, by the real parser
             try:
-                ins = [E.Source(h.inst(res[n])) for n in inputs]
+                ins = [E.Source(L.inst(res[n])) for n in inputs]
                 e = L.language.parse_expr(text, *ins)
                 ot = L.from_impl(e.type)
             except Exception:
@@ -912,6 +938,10 @@ def oracle(case: Case, member_op_name: str):
 
     def has_uri(t):
         return (not t[1]) or repr(t) in canon_set
+    def tkey(t):
+        # without recorded parameters a blank type node cannot be read back
+        return repr(t) if has_uri(t) or sw["with_type_parameters"] else "NC"
+    opaque_nodes = set()
     concepts = expected_concepts(case.ws)
     exp_types, exp_ops = set(), set()
     exp_records = Counter()
@@ -966,7 +996,7 @@ def oracle(case: Case, member_op_name: str):
                     f"source of type {L.tstr(t)} (canonical={canonical}): subtypeOf {sorted(got)} expected {sorted(supers)}",
                     sig))
         else:
-            exp_records[(via, repr(t) if typed else None, frozenset(supers))] += 1
+            exp_records[(via, tkey(t) if typed else None, frozenset(supers))] += 1
     # operations: the nodes that are not source nodes and carry via or type
     src_nodes = set(case.src_nodes.values())
     op_nodes = {s for s, p, o in obs if p in ("via", "type") and s not in src_nodes and s != root}
@@ -984,18 +1014,23 @@ def oracle(case: Case, member_op_name: str):
             dec, probs = decode_type_node(L, by_subj, tys[0])
             for p in probs:
                 out.append(("type_node_shape", p, None))
-            # which expected type does this node denote?  among the candidates of this via
-            cands = [c for c in concepts if c["kind"] == "op" and c["typed"] and
-                     c["via"] == (vias[0][1] if vias else None)]
-            m = [c for c in cands if same_type(L, dec, c["t"]) and
-                 (has_uri(c["t"]) == (tys[0][0] == "u"))]
-            if m:
-                # prefer the candidate whose supertypes also fit
-                m.sort(key=lambda c: frozenset(c["supers"]) != sts)
-                trep = repr(m[0]["t"])
-                type_node_of.setdefault(trep, set()).add(tys[0])
+            if dec is None and tys[0][0] == "b":
+                # a blank type node without description: legitimate only when
+                # parameters are not recorded; which type it stands for is then
+                # checked by counting (below)
+                trep = "NC" if not sw["with_type_parameters"] else "undescribed-blank-node"
+                opaque_nodes.add(tys[0])
             else:
-                trep = f"unexpected:{dec or tys[0]}"
+                cands = [c for c in concepts if c["kind"] == "op" and c["typed"] and
+                         c["via"] == (vias[0][1] if vias else None)]
+                m = [c for c in cands if same_type(L, dec, c["t"]) and
+                     (has_uri(c["t"]) == (tys[0][0] == "u"))]
+                if m:
+                    m.sort(key=lambda c: frozenset(c["supers"]) != sts)
+                    trep = repr(m[0]["t"])
+                    type_node_of.setdefault(trep, set()).add(tys[0])
+                else:
+                    trep = f"unexpected:{dec or tys[0]}"
         got_records[(vias[0][1] if vias else None, trep, sts)] += 1
     exp_visible = Counter({k: v for k, v in exp_records.items() if k[0] is not None or k[1] is not None})
     if got_records != exp_visible:
@@ -1003,6 +1038,14 @@ def oracle(case: Case, member_op_name: str):
         extra = got_records - exp_visible
         out.append(("operation_annotations",
             f"operation nodes (via, type, subtypeOf): missing {fmt_records(miss)} unexpected {fmt_records(extra)}", None))
+    if not sw["with_type_parameters"]:
+        # once per distinct type, by counting: as many blank type nodes as distinct
+        # types without URI among the typed concepts
+        nc_types = {repr(c["t"]) for c in concepts if c["typed"] and not has_uri(c["t"])}
+        blanks = {o for s, p, o in obs if p == "type" and o[0] == "b"}
+        if len(blanks) != len(nc_types):
+            out.append(("type_node_once", f"{len(blanks)} blank type nodes for {len(nc_types)} distinct "
+                        f"types without URI", None))
     # membership
     got_ct = {o for s, p, o in obs if p == "containsType"}
     bad_subj = {s for s, p, o in obs if p.startswith("contains") and s != root}
@@ -1141,13 +1184,21 @@ HDR = """From Coq Require Import List Arith Bool NArith String Ascii.
 Import ListNotations.
 From TF Require Import Base.Hier Base.Ty Parse.Lang Uri.Uri Canon.Succ Canon.Canon.
 From TF Require Import Graph.AddExpr Graph.Annot Graph.AnnotCanon.
-Definition pack (u : list nat) : N := fold_left (fun acc c => (acc * 256 + N.of_nat c)%N) u 0%N.
+(* text is printed in chunks of six code points: printing one large binary
+   number in decimal is slow *)
+Fixpoint chunks (u : list nat) (acc : N) (k : nat) : list N :=
+  match u with
+  | [] => if (acc =? 1)%N then [] else [acc]
+  | c :: r => let acc' := (acc * 256 + N.of_nat c)%N in
+              match k with 0 => acc' :: chunks r 1%N 5 | S k' => chunks r acc' k' end
+  end.
+Definition packs (u : list nat) : list N := chunks u 1%N 5.
 Fixpoint sdec (s : string) : list nat :=
   match s with EmptyString => [] | String c r => nat_of_ascii c :: sdec r end.
 Definition eterm (t : term) : list N :=
   match t with
-  | TUri u => [0%N; pack u] | TBn k => [1%N; N.of_nat k]
-  | TEn n => [2%N; N.of_nat n] | TRoot => [3%N; 0%N]
+  | TUri u => 0%N :: packs u | TBn k => [1%N; N.of_nat k]
+  | TEn n => [2%N; N.of_nat n] | TRoot => [3%N]
   end.
 Definition epred (p : apred) : list N :=
   match p with
@@ -1155,13 +1206,13 @@ Definition epred (p : apred) : list N :=
   | PContainsType => [3%N; 0%N] | PContainsOperation => [4%N; 0%N]
   | PSubClassOf => [5%N; 0%N] | PParam i => [6%N; N.of_nat i]
   end.
-Definition etriple (x : atriple) : list N :=
-  let '(s, p, o) := x in eterm s ++ epred p ++ eterm o.
-Definition ewire (x : triple) : list N :=
-  let '(s, p, o) := x in [2%N; N.of_nat s; N.of_nat (7 + p); 0%N; 2%N; N.of_nat o].
+Definition etriple (x : atriple) : list (list N) :=
+  let '(s, p, o) := x in [eterm s; epred p; eterm o].
+Definition ewire (x : triple) : list (list N) :=
+  let '(s, p, o) := x in [[2%N; N.of_nat s]; [N.of_nat (7 + p); 0%N]; [2%N; N.of_nat o]].
 (* the annotation of the expressions, and for one expression also the
    from/internal edges of AddExpr.add_expr over the same expression nodes *)
-Definition obs_case sw L ns H canon (es : list cexpr) (wire : bool) : option (list (list N)) :=
+Definition obs_case sw L ns H canon (es : list cexpr) (wire : bool) : option (list (list (list N))) :=
   match annot_exprs sw L ns canon (csup H canon) es with
   | None => None
   | Some (g, st) =>
@@ -1170,14 +1221,14 @@ Definition obs_case sw L ns H canon (es : list cexpr) (wire : bool) : option (li
            match es with
            | [e] => match add_expr add_from_plain false (erase e) None g_empty with
                     | Some (n, g') => map ewire (filter (fun x => t_pred x <? 2) (g_tr g'))
-                    | None => [[99%N]]
+                    | None => [[[99%N]]]
                     end
            | _ => []
            end
          else []))
   end.
-Definition pred_table : list (list N) :=
-  map (fun p => epred p ++ [pack (pred_name p)]) (tf_preds ++ [PSubClassOf]).
+Definition pred_table : list (list (list N)) :=
+  map (fun p => [epred p; packs (pred_name p)]) (tf_preds ++ [PSubClassOf]).
 Definition bs (l : list nat) : list bool := map (fun n => negb (n =? 0)) l.
 Definition sw_of (l : list bool) : switches :=
   match l with
@@ -1213,12 +1264,15 @@ def coq_block(li: int, L: Lang, cases) -> tuple[str, int]:
     return body, len(cases)
 
 
-def unpack(n: int) -> str:
-    bs = []
-    while n:
-        bs.append(n & 255)
-        n >>= 8
-    return bytes(reversed(bs)).decode("latin-1")
+def unpack(chunks) -> str:
+    out = []
+    for n in chunks:
+        bs = []
+        while n > 1:
+            bs.append(n & 255)
+            n >>= 8
+        out.append(bytes(reversed(bs)).decode("latin-1"))
+    return "".join(out)
 
 
 def model_obs(val, pred_names):
@@ -1227,18 +1281,19 @@ def model_obs(val, pred_names):
         return None
     out = set()
 
-    def nd(k, v):
+    def nd(t):
+        k = t[0]
         if k == 0:
-            return ("u", unpack(v))
+            return ("u", unpack(t[1:]))
         if k == 1:
-            return ("b", f"t{v}")
+            return ("b", f"t{t[1]}")
         if k == 2:
-            return ("b", f"e{v}")
+            return ("b", f"e{t[1]}")
         return ("r",)
     for row in val:
-        if row == [99]:
+        if row == [[99]]:
             return "wiring_failed"
-        sk, sv, pc, pi, ok, ov = row
+        s, (pc, pi), o = row
         if pc == 6:
             name = f"_{pi}"
         elif pc == 7:
@@ -1247,15 +1302,36 @@ def model_obs(val, pred_names):
             name = "internal"
         else:
             name = pred_names[pc]
-        out.add((nd(sk, sv), name, nd(ok, ov)))
+        out.add((nd(s), name, nd(o)))
     return out
 
 
 # --------------------------------------------------------------------------
 # vocabulary: the names the graph emits, the query generator tests, the vocabulary declares
 
+def read_vocabulary(path):
+    """the properties vocab/transforge.ttl declares (local names) and its
+    namespace.  Read leniently, statement by statement: the file as pinned is
+    not well-formed Turtle (an unbound prefix in the description of :applies),
+    which is not this property's matter; whether rdflib accepts it is noted."""
+    text = open(path, encoding="utf-8").read()
+    note = {"parses_as_turtle": True}
+    try:
+        from rdflib import Graph
+        Graph().parse(data=text, format="turtle")
+    except Exception as ex:
+        note = {"parses_as_turtle": False, "error": str(ex).splitlines()[-1][:200] if str(ex) else type(ex).__name__}
+    vns = set(re.findall(r"^@prefix\s*:\s*<([^>]*)>", text, re.M))
+    declared = set()
+    # a statement starts with ":name" in column 0 and ends with "." at a line end
+    for mt in re.finditer(r"^:(\w+)\b(.*?)\.\s*$", text, re.M | re.S):
+        name, body = mt.group(1), mt.group(2)
+        if re.search(r"\ba\s+(rdf|rdfs|owl):\w*Property\b", body) or "rdfs:domain" in body:
+            declared.add(name)
+    return declared, vns, note
+
+
 def vocab_tables(cases, rep):
-    from rdflib import Graph, RDFS
     TFs, _, _ = tf_names()
     emitted = set()
     for c in cases:
@@ -1264,14 +1340,7 @@ def vocab_tables(cases, rep):
         for p in set(c.g.predicates()):
             if str(p).startswith(TFs):
                 emitted.add(str(p)[len(TFs):])
-    vg = Graph()
-    vg.parse(str(C.REPO / "vocab" / "transforge.ttl"), format="turtle")
-    declared, vns = set(), set()
-    for s in set(vg.subjects(RDFS.domain, None)) | set(vg.subjects(RDFS.range, None)):
-        u = str(s)
-        if "#" in u:
-            declared.add(u.split("#")[-1])
-            vns.add(u.split("#")[0] + "#")
+    declared, vns, vocab_note = read_vocabulary(C.REPO / "vocab" / "transforge.ttl")
     # what the query generator asks of a workflow's membership sets
     queried, qerr = set(), None
     try:
@@ -1286,7 +1355,7 @@ def vocab_tables(cases, rep):
         queried = set(re.findall(r"\?workflow\s+:(contains\w*)\s", text))
     except Exception as ex:      # the generator itself is C11's matter
         qerr = f"{type(ex).__name__}: {ex}"
-    return sorted(emitted), sorted(queried), sorted(declared), sorted(vns), TFs, qerr
+    return sorted(emitted), sorted(queried), sorted(declared), sorted(vns), TFs, qerr, vocab_note
 
 
 # --------------------------------------------------------------------------
@@ -1361,12 +1430,13 @@ def case_from_payload(d) -> Case:
 
     def tupl(t):
         return (t[0], [tupl(a) for a in t[1]])
-    if d["kind"] == "expr":
+    kind = d.get("case_kind") or ("expr" if "recipe" in d else "wf")
+    if kind == "expr":
         spec = rec(d["recipe"])
     else:
         spec = d["workflow"]
         spec["sources"] = {k: tupl(v) for k, v in spec["sources"].items()}
-    return Case(L, d["kind"], spec, d["switches"], d["other_switches"], d.get("name", "replay"))
+    return Case(L, kind, spec, d["switches"], d["other_switches"], d.get("name", "replay"))
 
 
 def run_cases(rep: C.Report, cases, tag: str):
@@ -1382,7 +1452,7 @@ def run_cases(rep: C.Report, cases, tag: str):
             c.skip = "canon_with_variable"
             continue
         by_lang.setdefault(id(c.L), []).append(c)
-    emitted, queried, declared, vns, TFs, qerr = vocab_tables(cases, rep)
+    emitted, queried, declared, vns, TFs, qerr, vocab_note = vocab_tables(cases, rep)
     # the membership predicate for operations, as the query generator and the vocabulary name it
     member_ops = [q for q in queried if q != "containsType"]
     member_op_name = member_ops[0] if len(member_ops) == 1 else "containsOperation"
@@ -1397,7 +1467,7 @@ def run_cases(rep: C.Report, cases, tag: str):
         f"{C.coq_list(declared, coq_str)}.\n", 3)
     outs = C.coq_eval_blocks(f"C07_{tag}", HDR, blocks + [vocab_block], nfiles=4)
     table, agree_impl, agree_model = outs[-1]
-    pred_names = {row[0]: unpack(row[2]) for row in table}
+    pred_names = {row[0][0]: unpack(row[1]) for row in table}
     n_eval = n_dis = 0
     nviol = Counter()
     samples = []
@@ -1416,6 +1486,10 @@ def run_cases(rep: C.Report, cases, tag: str):
             dist[f"concepts_{min(len(concepts), 12) // 3 * 3}+"] += 1
             dist[f"canon_{min(len(c.canon), 60) // 10 * 10}+"] += 1
             dist["with_noncanonical_concept"] += nnc > 0
+            dist["with_canonical_compound_concept"] += any(x["t"][1] and repr(x["t"]) in canon_set for x in concepts)
+            msup = max([sum(1 for s_ in c.canon if sub(c.L.h, x["t"], s_)) for x in concepts
+                        if repr(x["t"]) in canon_set] or [0])
+            dist[f"largest_supertype_set_{min(msup, 8) // 2 * 2}+"] += 1
             dist["with_compound_concept"] += ncomp > 0
             dist["with_function_argument"] += any(has_fn(w) for w in c.ws)
             dist["with_shared_source"] += sum(1 for w in c.ws for l in leaves(w) if l["k"] == "src") > \
@@ -1448,8 +1522,10 @@ def run_cases(rep: C.Report, cases, tag: str):
                 dist["outside_wiring_model"] += 1
                 continue
             ok = False
+            # for workflows the data flow between tools is C12's; annotation only
+            cobs = c.obs if c.kind == "expr" else {x for x in c.obs if x[1] not in ("from", "internal")}
             try:
-                ok = iso(c.obs, m)
+                ok = iso(cobs, m)
             except RuntimeError:
                 dist["iso_budget_exhausted"] += 1
                 ok = True
@@ -1458,7 +1534,7 @@ def run_cases(rep: C.Report, cases, tag: str):
                 if n_dis <= 5:
                     rep.violation(f"disagree_{c.name}", dict(payload, kind="correspondence",
                         what="annotation triples differ from the model up to blank-node renaming (K_C07)",
-                        difference=diff_summary(c.obs, m)), has_input=False)
+                        difference=diff_summary(cobs, m)), has_input=False)
             if len(samples) < 3 and ncomp and nnc and c.kind == "expr" and len(concepts) >= 4:
                 samples.append({"language": c.L.text(), "expression": rtext(c.L, c.spec),
                     "switches": {k: v for k, v in c.sw.items()},
@@ -1473,7 +1549,7 @@ def run_cases(rep: C.Report, cases, tag: str):
              "vocabulary_namespaces": vns, "code_namespace": TFs,
              "namespace_differs_only_in_scheme": [v for v in vns if v != TFs and v.split("://")[-1] == TFs.split("://")[-1]],
              "coq_vocab_agree_implementation_names": agree_impl, "coq_vocab_agree_model_names": agree_model,
-             "query_generator_error": qerr}
+             "query_generator_error": qerr, "vocabulary_file": vocab_note}
     if qerr:
         rep.violation("query_generator", {"kind": "harness", "what": "could not obtain the query pre-filter: " + qerr},
             has_input=False)
